@@ -14,8 +14,8 @@ P = {
          "refinement to abstract spec (frame + rejection lemmas); differential correspondence", "7 C03"),
  "C04": ("spec-level theorem: every call other than delete_object(q) preserves q's binding and its object's bytes, lifted to all histories by induction; last delete removes the object; correspondence with retrieval probes after every step",
          "invariant by induction over operations; differential correspondence", "7 C04"),
- "C05": ("abstract level: delete_object clears a bound pid from any state incl. dangling ones, objects appear only by being stored; concrete exactness of both on-disk indexes is checked against the real directory after every call (bookkeeping predicate + full state equality with the model)",
-         "refinement to abstract spec + exactness oracle; differential correspondence", "7 C05"),
+ "C05": ("concrete level: the two-index invariant RefsExact (every pid reference is the hash of a well-formed pid listed by its cid; every cid list is the rendering of a non-empty duplicate-free list of pids each bound to exactly that cid; no refs/objects temp file; no marker name among references and objects) is proved preserved by every public call with any arguments (closed forms of tag_object, delete_object incl. the missing-object branch, store_object; static RefsSafe discipline for the other six calls) and therefore after every completed call of every history from the empty store, run sequentially with no fault plan, for a collision-free identifier hash with hexadecimal values; abstract level: delete_object clears a bound pid from any state incl. dangling ones, objects appear only by being stored. Not proved: the object-set clause (unreferenced object only if stored without pid) at the concrete level, metadata temp files. The real directory is compared with the model after every call of every generated history (bookkeeping predicate + full state equality)",
+         "invariant by induction over all histories on the concrete program text (symbolic closed forms + static effect discipline) + refinement to abstract spec; differential correspondence", "7 C05"),
  "C06": ("decision theorem: verdict = valid iff size ok and checksum equals the used digest case-insensitively, on both checksum paths; mismatch classes; refutation of the as-found case-sensitive path; correspondence over algorithms x spellings x checksum case x size x prior state",
          "decision logic stated outright; differential correspondence", "7 C06"),
  "C07": ("partial: the interleaving semantics extends the sequential one (a thread running alone computes the sequential result from any scheduling point); mutual exclusion for any number of threads and every schedule; static discipline of every call under every interleaving; the full statement is refuted by three decide-checked schedules (K1 dedupe window, K2 tag || delete, K5 store rejected during a delete) = known findings replayed on the real threads each run; section-level linearizability not proved. Real threads run the real calls under a controlled scheduler; each real schedule is replayed on the Lean interleaving model (results and final state agree) and judged against all sequential orders on the Lean spec",
